@@ -380,10 +380,20 @@ class HplAtomicValue(HplValue):
         return self
 
 
+def _literal_value_key(value: Union[bool, int, float, str]) -> Any:
+    # NaN is not equal to itself; literals denoting it are still the same literal
+    if isinstance(value, float) and value != value:
+        return ('NaN',)
+    return value
+
+
 @frozen
 class HplLiteral(HplAtomicValue):
     token: str
-    value: Union[bool, int, float, str] = field(validator=instance_of((bool, int, float, str)))
+    value: Union[bool, int, float, str] = field(
+        validator=instance_of((bool, int, float, str)),
+        eq=_literal_value_key,
+    )
 
     def __attrs_post_init__(self):
         if self.value is True or self.value is False:
